@@ -18,8 +18,24 @@ for _v in ("V2", "V3", "V4"):
                                   "_normalize_forms_agree", "_normalize_zero", "_normalized_zero", "_normalizeExc_zero",
                                   "_normalizedExc_zero", "_normalizeExc_throws_iff", "_normalizedExc_throws_iff")]
     REQUIRED += ["%s_%s_of_ne_zero" % (_v, f) for f in FORMS]
-REQUIRED_LEMMAS = {"ImathVerif.Lemmas.C08Lemmas": ["V2_length_eq", "V3_length_eq", "scaled2", "scaled3"],
-                   "ImathVerif.Lemmas.C08LemmasV4": ["V4_length_eq"]}
+    # (audit W7) the remaining statement-bearing theorems are required too
+    REQUIRED += [_v + s for s in ("_length_nonneg", "_dot_self", "_normalized_real")] + ["%s_%s_eq" % (_v, f) for f in ("normalize", "normalized")]
+REQUIRED_LEMMAS = {"ImathVerif.Lemmas.C08Lemmas": ["V2_length_eq", "V3_length_eq", "V2_length_sq", "V3_length_sq", "scaled2", "scaled3", "scaled_div",
+                                                   "sqrt_unique"],
+                   "ImathVerif.Lemmas.C08LemmasV4": ["V4_length_eq", "V4_length_sq"]}
+# SHAPE theorems (syntactic; Props/C08Shape.lean): reported under their own key `shape:<function>`
+SHAPE = "ImathVerif.Props.C08Shape"
+SHAPE_REQUIRED = ["peel_guard", "peel_abs", "peel_max"] + ["%s_%s_shape" % (v, f) for v in ("V2", "V3", "V4") for f in ["length"] + FORMS]
+
+# calibration of the measured residue: clean-tree maxima over seeds 1-3 (quick: 2, thorough: 24 random mantissas per exponent), classes
+# derived from the REFERENCE dot.  The bounds (harness) are these maxima + 1; the drift obligation allows + DRIFT.
+CALIBRATED = {"quick": {"length_ulps": {"tiny-branch/subnormal-norm": 1.36, "tiny-branch/normal-norm": 2.45, "direct/near-threshold": 1.66, "direct": 1.62,
+                                        "scaled-branch/squares-overflow": 2.56}, "unit_err_eps": {"*": 1.73}, "ratio_err_u": {"*": 3.88}},
+              "thorough": {"length_ulps": {"tiny-branch/subnormal-norm": 1.48, "tiny-branch/normal-norm": 2.87, "direct/near-threshold": 1.93, "direct": 1.74,
+                                           "scaled-branch/squares-overflow": 2.85}, "unit_err_eps": {"*": 1.73}, "ratio_err_u": {"*": 3.94}}}
+BOUNDS = {"length_ulps": {"tiny-branch/subnormal-norm": 2.5, "tiny-branch/normal-norm": 3.9, "direct/near-threshold": 3.0, "direct": 2.8,
+                          "scaled-branch/squares-overflow": 3.9}, "unit_err_eps": 2.8, "ratio_err_u": 5.0}      # = harness/corr/c08_residue.cpp
+DRIFT = 0.5
 
 _lattice_cache = {}
 
@@ -62,68 +78,298 @@ def make_search(chk, binary):
     return search
 
 
+def tv_leaf_coverage(chk, binary, lindex):
+    """C++-side TV of length() with RECORDED leaf coverage (audit W5): every leaf reachable at double with the real limits is visited
+    (small integer components at three scales) and the real code equals the extracted tree bit for bit there."""
+    rc, out = lib.sh([binary, "tvwit"], timeout=600)
+    rows = {}
+    for l in out.split("\n"):
+        m = re.match(r"TVWIT (\S+) leaves=(\d+) hit=(\d+) nonconst_leaves=(\d+) nonconst_hit=(\d+) const_hit=(\d+) evaluations=(\d+) mismatches=(\d+)", l)
+        if m:
+            rows[m.group(1)] = dict(zip(("leaves", "hit", "nonconst_leaves", "nonconst_hit", "const_hit", "evaluations", "mismatches"), map(int, m.groups()[1:])))
+    ok = rc == 0 and len(rows) == len(lindex) and all(v["mismatches"] == 0 and v["nonconst_hit"] == v["nonconst_leaves"] and v["const_hit"] >= 1 for v in rows.values())
+    chk.oblige("tv:leaf: real length() at double = extracted tree, bitwise, on EVERY leaf reachable with the real limits (%s; the literal-0 leaf under the "
+               "underflow guard; under dot > max it needs max < 0)" % ", ".join("%s %d/%d" % (k, v["nonconst_hit"], v["nonconst_leaves"]) for k, v in sorted(rows.items())),
+               "translation-validation", ok, None if ok else out[-600:])
+    chk.count(sum(v["evaluations"] for v in rows.values()), sum(v["evaluations"] for v in rows.values()))
+    chk.extra.setdefault("tv", {})["leaf_coverage_double"] = rows
+    if not ok:
+        fl = [l for l in out.split("\n") if l.startswith("TVWITFAIL")]
+        chk.fail("tv:leaf", "tv:leaf:leaf-coverage", "per-leaf translator validation of length() failed or does not reach every non-literal leaf",
+                 {"rows": rows, "failures": fl[:5], "replay_cmd": ".build/bin/sym_leaf tvwit"}, bool(fl))
+
+
+def _rat(s):
+    n, d = s.split("/")
+    return "((%s : Rat) / %s)" % (n, d) if d != "1" else "(%s : Rat)" % n
+
+
+def emitted_text_tv(chk, bins, lindex, index, leaf_index):
+    """Lean-side validation of the EMITTED TEXT beyond troute.lean_tv (audit C08 W4/W5), one Lean run for both parts:
+
+    (a) Gen/Leaf.lean: ONE exact rational witness per reachable leaf of V2/V3/V4.length (sym_leaf `ratwit`: components in
+        [-4,4]^N x four pairs of limit stubs forcing each outcome of the guard), the emitted definition evaluated at Rat with the
+        same stubs must print the same fraction as the extracted tree at Frac.  Obligation: every leaf whose value is not a literal
+        is witnessed; the literal-0 leaves (`max == 0`) are reachable only for the zero vector: one per guard.
+    (b) Gen/C08.lean: troute.lean_tv skips every entry that calls the opaque length() (18 of 24).  Here the call is COMPOSED:
+        sym_c08 `ratargs` gives inputs and the exact arguments of the call, sym_leaf `rateval` the value of the callee's own tree
+        on them, sym_c08 `ratwith` the entry's tree with that value of the call; the emitted Lean text (which calls
+        `V*.length tmin tmax sqrt ⟨..⟩` in Lean) must print the same fractions."""
+    n_per = 16 if chk.thorough else 8
+    cases = []      # (kind, fn, tmin, tmax, ins, expected)
+    rc, out = lib.sh([bins["sym_leaf"], "ratwit"], timeout=600)
+    sums = {}
+    for l in out.split("\n"):
+        m = re.match(r"WITCASE (\S+) LEAF (\d+) TMIN (\S+) TMAX (\S+) IN(.*?) OUT (exc=\S+ vals=\S* ints=\S*)", l)
+        if m:
+            cases.append(("leaf", m.group(1), m.group(3), m.group(4), m.group(5).split(), m.group(6)))
+        m = re.match(r"WITSUM (\S+) leaves=(\d+) hit=(\d+) nonconst_leaves=(\d+) nonconst_hit=(\d+) const_leaves=(\d+) const_hit=(\d+)", l)
+        if m:
+            sums[m.group(1)] = dict(zip(("leaves", "hit", "nonconst_leaves", "nonconst_hit", "const_leaves", "const_hit"), map(int, m.groups()[1:])))
+    cover_ok = len(sums) == len(lindex) and all(v["nonconst_hit"] == v["nonconst_leaves"] and v["const_hit"] >= 2 and v["leaves"] == int(d.get("paths", -1))
+                                                 for d in lindex for v in [sums.get(d["name"], dict(nonconst_hit=-1, nonconst_leaves=0, const_hit=0, leaves=0))])
+    chk.oblige("lean-tv:leaf: every leaf of V2/V3/V4.length whose value is not a literal has an exact rational witness (%s), and the "
+               "literal-0 leaf is reached once under each guard" % ", ".join("%s %d/%d" % (k, v["nonconst_hit"], v["nonconst_leaves"]) for k, v in sorted(sums.items())),
+               "translation-validation", cover_ok, None if cover_ok else sums)
+    if not cover_ok:
+        chk.fail("lean-tv:leaf", "lean-tv:leaf:leaf-coverage", "not every non-literal leaf of the extracted length() trees is reached by the witness generator "
+                 "(the tree changed shape: extend harness/sym/c08_modes.h ratwit)", {"per_function": sums}, False)
+    chk.extra["leaf_witnesses"] = sums
+    # (b) composition through the opaque call
+    idx = ["--idx", leaf_index]
+    rc, out = lib.sh([bins["sym_c08"], "ratargs", str(chk.seed), str(n_per)] + idx, timeout=600)
+    reqs = []
+    for l in out.split("\n"):
+        m = re.match(r"CALLARGS (\S+) IN(.*?) CALL (\S+)(.*)$", l)
+        if m and " CALL " not in m.group(4):
+            reqs.append((m.group(1), m.group(2).split(), m.group(3), m.group(4).split()))
+    rc, out = lib.sh([bins["sym_leaf"], "rateval"], timeout=600, stdin="".join("%s %s\n" % (c, " ".join(a)) for (_, _, c, a) in reqs))
+    vals = dict((int(m.group(1)), m.group(2)) for m in re.finditer(r"RATVAL (\d+) (-?\d+/\d+),", out))
+    feed = "".join("%s IN %s CALLS %s\n" % (fn, " ".join(ins), vals[i]) for i, (fn, ins, _, _) in enumerate(reqs) if i in vals)
+    rc, out = lib.sh([bins["sym_c08"], "ratwith"] + idx, timeout=600, stdin=feed)
+    ncomp = 0
+    for l in out.split("\n"):
+        m = re.match(r"RATCASE (\S+) LEAF (\d+) TMIN (\S+) TMAX (\S+) IN(.*?) OUT (exc=\S+ vals=\S* ints=\S*)", l)
+        if m:
+            cases.append(("call", m.group(1), m.group(3), m.group(4), m.group(5).split(), m.group(6)))
+            ncomp += 1
+    meta = {d["name"]: d for d in list(lindex) + list(index)}
+    called = sorted(set(c[1] for c in cases if c[0] == "call"))
+    expected_called = sorted(d["name"] for d in index if "sqrt" in (d.get("extra") or ""))
+    lines = ["import ImathVerif.Gen.C08", "open ImathVerif ImathVerif.Gen", troute.LEAN_TV_PRELUDE]
+    for i, (kind, fn, tmin, tmax, ins, _) in enumerate(cases):
+        d = meta[fn]
+        sh = (d.get("params") or "").split(",")[0].partition(":")[2]
+        k = troute.ARITY[sh].count("%s")
+        arg = "(" + troute.ARITY[sh] % tuple(_rat(x) for x in ins[:k]) + " : %s Rat)" % sh
+        call = "(%s %s %s (st1 0) %s)" % (fn, _rat(tmin), _rat(tmax), arg)
+        outs = [x for x in (d.get("outs") or "").split(",") if x]
+        def body(v):
+            if outs == ["-"]:
+                return '"exc=- vals=" ++ frs [%s] ++ " ints="' % v
+            return '"exc=- vals=" ++ frs [%s] ++ " ints="' % ", ".join("%s.%s" % (v, f) for f in troute.LEAVES[outs[0]])
+        if d.get("throws") == "1":
+            expr = '(match %s with | .ok v => %s | .error e => "exc=" ++ excName e ++ " vals= ints=")' % (call, body("v"))
+        else:
+            expr = "(let v := %s; %s)" % (call, body("v"))
+        lines.append('#eval IO.println ("RATLEAN %d " ++ %s)' % (i, expr))
+    rcb, outb = lib.lake_build(["ImathVerif.Gen.C08"])
+    rc, lout = lib.lean_run_file("\n".join(lines) + "\n", timeout=1800, name="c08tv")
+    got = dict((int(m.group(1)), m.group(2).strip()) for m in re.finditer(r"RATLEAN (\d+) (.*)", lout))
+    bad = [(i, c) for i, c in enumerate(cases) if got.get(i) != c[5].strip()]
+    nleaf = sum(1 for c in cases if c[0] == "leaf")
+    okl = nleaf > 0 and not [b for b in bad if b[1][0] == "leaf"]
+    chk.oblige("lean-tv:leaf: emitted Lean text of V2/V3/V4.length at Rat = extracted tree at exact fractions on one witness per reachable "
+               "leaf (%d leaves of %d emitted)" % (nleaf, sum(v["leaves"] for v in sums.values())), "translation-validation", okl)
+    okc = ncomp > 0 and called == expected_called and not [b for b in bad if b[1][0] == "call"]
+    chk.oblige("lean-tv:c08: emitted Lean text of the %d entries that CALL length() (skipped by the generic lean-tv) = extracted tree with the "
+               "callee's tree value, at exact fractions (%d cases incl. zero vectors and both sides of the callee's guard)" % (len(expected_called), ncomp),
+               "translation-validation", okc, None if okc else {"entries_validated": called, "entries_expected": expected_called})
+    chk.count(len(cases), len(cases))
+    chk.extra.setdefault("lean_tv", {})["c08_emitted_text"] = {"leaf_witness_cases": nleaf, "call_composition_cases": ncomp, "entries_with_calls": len(called),
+                                                              "mismatches": len(bad)}
+    if ncomp == 0 or called != expected_called:
+        chk.fail("lean-tv:c08", "lean-tv:c08:call-composition", "the composed validation of the entries that call length() did not cover every such entry",
+                 {"validated": called, "expected": expected_called, "output_tail": out[-800:]}, False)
+    reported = set()
+    for i, (kind, fn, tmin, tmax, ins, exp) in bad:
+        if fn in reported:
+            continue
+        reported.add(fn)
+        chk.fail("lean-tv:" + ("leaf" if kind == "leaf" else "c08"), "lean-tv:%s" % fn,
+                 "emitted Lean definition of %s evaluates differently from the extracted tree (emitter bug, e.g. order of the limit parameters in a call)" % fn,
+                 {"function": fn, "tmin": tmin, "tmax": tmax, "inputs": ins, "tree_at_Frac": exp, "lean_at_Rat": got.get(i),
+                  "lean_output_tail": lout[-600:] if got.get(i) is None else None}, True)
+
+
+BRANCH_WHATS = ("branch-scaled-taken-where-direct-required", "branch-direct-taken-where-scaled-required", "algorithm-neither-direct-nor-scaled")
+
+
+def _report_fails(chk, out, prefix, obligation_of, replay_cmd, cap=40):
+    seen = set()
+    for l in [l for l in out.split("\n") if l.startswith("RESIDUE-FAIL")]:
+        p = l.split()
+        key = "%s:%s:%s:%s" % (prefix, p[1], p[2], p[3])
+        if key in seen:
+            continue
+        seen.add(key)
+        chk.fail(obligation_of(p[3]), key, "measured floating-point behaviour of %s<%s> violates C08 (%s): %s" % (p[1], p[2], p[3], l[:400]),
+                 {"function": p[1], "element_type": p[2], "what": p[3], "input_hex_floats": p[4][3:], "detail": " ".join(p[5:]), "replay_cmd": replay_cmd}, True)
+        if len(seen) >= cap:
+            break
+    return seen
+
+
 def residue(chk, binary):
     reps = 24 if chk.thorough else 2
+    replay = ".build/bin/c08_residue %d sweep %d 1" % (chk.seed, reps)
     rc, out = lib.sh([binary, str(chk.seed), "sweep", str(reps), "1"], timeout=3000)
     m = re.search(r"RESIDUE mode=sweep seed=\d+ vectors=(\d+) evals=(\d+) failures=(\d+)", out)
-    ok = rc == 0 and m is not None and int(m.group(3)) == 0
-    chk.oblige("residue: length() within the calibrated few-ulp bounds of the 113-bit norm on every exponent x mantissa pattern x "
-               "structure x dimension x {float,double}; zero only for zero; normalize*: unit length / sign / ratio / zero->zero / "
-               "never NaN or inf (MEASURED, not proved)", "residue", ok)
-    agg = {}
+    fails = [l.split() for l in out.split("\n") if l.startswith("RESIDUE-FAIL")]
+    ran = rc in (0, 1) and m is not None
+    acc_fails = [p for p in fails if p[3] not in BRANCH_WHATS]
+    br_fails = [p for p in fails if p[3] in BRANCH_WHATS]
+    nf = int(m.group(3)) if m else -1          # the harness prints at most 200 FAIL lines: beyond that nothing is known to be fine
+    ok = ran and not acc_fails and nf <= 200
+    OBL_ACC = ("residue: length() within the calibrated few-ulp bounds of the 113-bit norm on every exponent x mantissa pattern x "
+               "structure x dimension x {float,double}, class taken from the REFERENCE dot; zero only for zero; normalize*: unit length / sign / "
+               "ratio / zero->zero / never NaN or inf (MEASURED, not proved)")
+    chk.oblige(OBL_ACC, "residue", ok)
+    agg, branch, probes = {}, {}, {}
     for l in out.split("\n"):
         mm = re.match(r"CLASS (\w+)\|(\w+)\|(\d)\|(\S+) max=([\d.]+) n=(\d+) worst=(\S*)", l)
         if mm:
             metric, ty, dim, cls, mx, n, worst = mm.groups()
             a = agg.setdefault(metric, {}).setdefault(cls if metric != "normalize_subnormal_norm_finite" else "form=" + cls, {})
             a["Vec%s<%s>" % (dim, ty)] = {"max": float(mx), "count": int(n), "worst_input": worst}
+        mm = re.match(r"BRANCH (\w+)\|(\d) (.*)", l)
+        if mm:
+            branch["Vec%s<%s>" % (mm.group(2), mm.group(1))] = dict((k, int(v)) for k, v in (kv.rsplit("=", 1) for kv in mm.group(3).split()))
+        mm = re.match(r"EXACTPROBE (\w+)\|(\d)\|(\S+) constructed=(\d+)", l)
+        if mm:
+            probes.setdefault("Vec%s<%s>" % (mm.group(2), mm.group(1)), {})[mm.group(3)] = int(mm.group(4))
+    # ---- branch probe (audit S2): which algorithm did the code run, on which side of the two thresholds
+    decided = sum(b.get("decided_direct", 0) + b.get("decided_scaled", 0) for b in branch.values())
+    okb = ran and not br_fails and nf <= 200 and len(branch) == 6
+    OBL_BR = ("residue: branch probe: length() is BITWISE sqrt(dot) when 2*min <= dot <= max and BITWISE max*sqrt(sum (|x_i|/max)^2) when dot < 2*min "
+              "or dot > max (dot = the T-valued x*x+y*y+..., bit-identical to dot()), decided wherever the two algorithms give different bits "
+              "(%d vectors), never equal to neither" % decided)
+    chk.oblige(OBL_BR, "residue", okb, None if okb else [" ".join(p[:6]) for p in br_fails[:5]])
+    need = ("decided_direct", "decided_scaled", "dot==2*min", "dot==pred(2*min)", "dot==max", "within_x4_of_2*min", "within_x4_of_max_or_above")
+    thin = ["%s:%s=%d" % (k, f, b.get(f, 0)) for k, b in sorted(branch.items()) for f in need if b.get(f, 0) < (1 if f.startswith("dot==") else 20)]
+    thin += ["%s:constructed[%s]=0" % (k, t) for k, d in sorted(probes.items()) for t, n in d.items() if n == 0]
+    okreach = ran and len(branch) == 6 and len(probes) == 6 and not thin
+    chk.oblige("reach: the branch probe decides vectors on both sides of both thresholds for every type x dimension, including constructed vectors whose "
+               "T-valued dot is EXACTLY 2*min (direct: strict <), pred(2*min) (scaled), succ(2*min), max (direct: strict >)", "residue", okreach, thin[:10] or None)
+    if ran and not okreach:
+        chk.fail("reach", "residue:reach:threshold-probes", "the threshold probes of the residue sweep no longer reach every side of the two thresholds",
+                 {"thin": thin, "branch": branch, "constructed": probes, "replay_cmd": replay}, False)
     if m:
         chk.count(int(m.group(2)), int(m.group(2)))
+        measured = {k: {c: max(v["max"] for v in d.values()) for c, d in cl.items()} for k, cl in agg.items() if k != "normalize_subnormal_norm_finite"}
         chk.residues["C08"] = {
             "status": "MEASURED, NOT PROVED (level partial): floating-point accuracy of length()/normalize* against a 113-bit reference",
             "vectors": int(m.group(1)), "evaluations": int(m.group(2)), "random_mantissas_per_exponent": reps,
             "exponents": "every binary exponent: float 2^-149..2^126, double 2^-1074..2^1022 (components up to max/2: squares may "
                          "overflow, the length is representable; a reference norm above max would be skipped: %s skipped)" % (
                              (re.search(r"skipped_norm_above_max=(\d+)", out) or [None, "?"])[1]),
-            "bounds": {"length_ulps": {"tiny-branch/subnormal-norm": 2.5, "tiny-branch/normal-norm": 3.7, "direct/near-threshold": 3.2, "direct": 2.6,
-                                       "scaled-branch/squares-overflow": 3.7},
-                       "unit_err_eps": 2.8, "ratio_err_u": 4.9,
-                       "how_fixed": "clean-tree maximum over seeds 1-3 (2 and 24 mantissas per exponent) + 1, re-calibrated on /repo 16a5ca8: "
-                                    "measured maxima 1.44 / 2.65 / 2.15 / 1.58 ulps, overflow class 2.75 ulps (shares the bound of the "
-                                    "normal-norm scaled branch), 1.71 eps, 3.87 u"},
-            "measured_this_run": {k: {c: max(v["max"] for v in d.values()) for c, d in cl.items()} for k, cl in agg.items()
-                                  if k != "normalize_subnormal_norm_finite"},
-            "per_class": agg}
-    seen = set()
-    for l in [l for l in out.split("\n") if l.startswith("RESIDUE-FAIL")]:
-        p = l.split()
-        key = "residue:%s:%s:%s" % (p[1], p[2], p[3])
-        if key in seen:
-            continue
-        seen.add(key)
-        chk.fail("residue:" + p[1], key, "measured floating-point behaviour of %s<%s> violates C08 (%s): %s" % (p[1], p[2], p[3], l[:400]),
-                 {"function": p[1], "element_type": p[2], "what": p[3], "input_hex_floats": p[4][3:], "detail": " ".join(p[5:]),
-                  "replay_cmd": ".build/bin/c08_residue %d sweep %d 1" % (chk.seed, reps)}, True)
-        if len(seen) >= 40:
-            break
-    if not ok and not seen:
+            "classes": "from the REFERENCE: exact dot (113 bits) vs 2*min, 2^11*min, max; reference norm vs min; within 16*N*u of a threshold the "
+                       "larger of the two adjacent bounds applies",
+            "bounds": dict(BOUNDS, how_fixed="clean-tree maximum over seeds 1-3 (2 and 24 mantissas per exponent) + 1, calibrated on /repo 16a5ca8 with "
+                           "reference-derived classes", calibrated_maxima=CALIBRATED[chk.tier], drift_allowance=DRIFT),
+            "measured_this_run": measured, "branch_probe": branch, "constructed_threshold_probes": probes, "per_class": agg}
+        # ---- drift (audit S6): the measured maxima may not exceed the calibration by more than DRIFT although the bound has 1 ulp of room
+        drifts = []
+        for metric, cal in CALIBRATED[chk.tier].items():
+            for cls, v in measured.get(metric, {}).items():
+                c = cal.get(cls, cal.get("*"))
+                if c is not None and v > c + DRIFT:
+                    drifts.append((metric, cls, v, c))
+        chk.oblige("residue: drift: every measured per-class maximum is within %.1f of its calibrated clean-tree maximum (the bounds leave 1.0: a regression "
+                   "that costs less than the slack is still reported)" % DRIFT, "residue", not drifts and bool(measured),
+                   ["%s[%s] measured %.3f calibrated %.2f" % d for d in drifts] or None)
+        for metric, cls, v, c in drifts:
+            worst = max(agg[metric][cls].items(), key=lambda kv: kv[1]["max"])
+            chk.fail("residue: drift", "residue:drift:%s:%s" % (metric, cls),
+                     "measured maximum of %s in class %s is %.3f, more than %.1f above the calibrated clean-tree maximum %.2f (still inside the bound): "
+                     "accuracy regression below the bound, or re-calibrate CALIBRATED in tools/props/c08.py" % (metric, cls, v, DRIFT, c),
+                     {"metric": metric, "class": cls, "measured": v, "calibrated": c, "worst_instance": worst[0], "worst_input_hex_floats": worst[1]["worst_input"],
+                      "replay_cmd": replay}, True)
+    seen = _report_fails(chk, out, "residue", lambda what: OBL_BR if what in BRANCH_WHATS else OBL_ACC, replay)
+    if not ran and not seen:
         chk.fail("residue", "residue:run", "residue harness failed to run", {"output": out[-2000:]}, False)
+
+
+def exhaustive(chk, binary):
+    """thorough tier (audit S3): ALL positive finite floats x <= max/2 in the single-component and all-equal families"""
+    replay = ".build/bin/c08_residue %d exhaustive %d" % (chk.seed, lib.NCPU)
+    rc, out = lib.sh([binary, str(chk.seed), "exhaustive", str(lib.NCPU)], timeout=6000)
+    m = re.search(r"RESIDUE mode=exhaustive seed=\d+ vectors=(\d+) evals=(\d+) failures=(\d+)", out)
+    fams = {}
+    for l in out.split("\n"):
+        mm = re.match(r"EXHAUSTIVE float\|(\d)\|(\S+) vectors=(\d+) evals=(\d+) length_bit_exact=(\d+) subnormal_norm=(\d+) unit_max_eps=([\d.]+)\((\w+)\) ratio_max_u=([\d.]+)\((\w+)\)(.*)", l)
+        if mm:
+            d = {"vectors": int(mm.group(3)), "evaluations": int(mm.group(4)), "length_bit_exact": int(mm.group(5)), "subnormal_norms": int(mm.group(6)),
+                 "unit_max_eps": float(mm.group(7)), "unit_worst_bits": mm.group(8), "ratio_max_u": float(mm.group(9)), "ratio_worst_bits": mm.group(10), "length_max_ulps": {}}
+            for c in re.finditer(r"len\[(\S+?)\]=([\d.]+)/n=(\d+)\((\w+)\)", mm.group(11)):
+                d["length_max_ulps"][c.group(1)] = {"max": float(c.group(2)), "count": int(c.group(3)), "worst_bits": c.group(4)}
+            fams["Vec%sf %s" % (mm.group(1), mm.group(2))] = d
+    full = 0x7EFFFFFF
+    ok = rc == 0 and m is not None and int(m.group(3)) == 0 and len(fams) == 6 and all(d["vectors"] == full for d in fams.values())
+    chk.oblige("exhaustive: ALL %d positive finite floats x <= max/2 in Vec2f(x,0), Vec3f(0,x,0), Vec4f(0,0,0,x) and (x,x), (x,x,x), (x,x,x,x) "
+               "(signs from the low bits): length() within the class bound of |x| resp. |x|*sqrt(N), never 0 / NaN / inf; normalize() and normalized() on "
+               "every x (the other four forms on every 8th block of 2^20): signs, zeros kept, unit length (single component: within 1 eps), ratio" % full,
+               "residue", ok, None if ok else out[-600:])
+    if m:
+        chk.count(int(m.group(2)), int(m.group(2)))
+    chk.extra["exhaustive_float_families"] = fams
+    seen = _report_fails(chk, out, "exhaustive", lambda what: "exhaustive", replay)
+    if not ok and not seen:
+        chk.fail("exhaustive", "exhaustive:run", "the exhaustive float sweep did not run to completion", {"output": out[-1500:]}, False)
+
+
+def make_shape_search(chk, rbin, bins):
+    """A SHAPE theorem stopped elaborating: the code's shape changed.  Reported under `shape:<function>` so that it is triaged (a harmless
+    rewrite is possible).  Evidence, in this order: a float vector on which the real code takes the wrong branch / is not the correctly
+    rounded sqrt or quotient (residue harness, lattice mode incl. branch probe); failing that the bare fact."""
+    def search(name):
+        fn = function_of(name)
+        rep = {"key": "shape:" + (fn or name), "shape_theorem": name, "separating_input": None,
+               "meaning": "the syntactic shape of the extracted function differs from the pinned one (guard dot < 2*tmin || tmax < dot, lengthTiny as written, "
+                          "true division by length()); the value theorems may still hold — compare the residue obligations"}
+        if rbin and fn:
+            for f in [fn] + ([fn.split(".")[0] + ".length"] if fn.split(".")[1].startswith("normal") else []):
+                rc, out = lattice(chk, rbin, f)
+                fails = [l for l in out.split("\n") if l.startswith("RESIDUE-FAIL")]
+                if fails:
+                    p = fails[0].split()
+                    rep.update({"separating_input": p[4][3:], "real_code_function": p[1], "element_type": p[2], "what": p[3], "detail": " ".join(p[5:]),
+                                "replay_cmd": ".build/bin/c08_residue %d lattice %s" % (chk.seed, f)})
+                    break
+        return rep
+    return search
 
 
 def run(chk):
     chk.trusted = ["Lean 4.33 kernel; axioms propext/Classical.choice/Quot.sound at most", "Mathlib's ordered fields and Real.sqrt",
                    "translator harness/sym (real Vec2/3/4::length bodies incl. lengthTiny: 9/129/513 paths), validated each run by TV "
-                   "(bitwise at float and double) and by evaluating the emitted Lean text at Rat",
-                   "__float128 / libquadmath sqrtq as the oracle of the measured residue"]
+                   "(bitwise at float and double) and by evaluating the emitted Lean text at Rat: one witness per reachable leaf of length(), and the "
+                   "entries that call length() composed with the callee's tree",
+                   "tools/pins/extras_leaf.json, extras_c08.json: WHICH numeric_limits constant is the parameter tmin / tmax of the extracted definitions",
+                   "__float128 / libquadmath sqrtq as the oracle of the measured residue; IEEE double as the oracle of the exhaustive float families; "
+                   "correctly rounded hardware sqrt and division (cross-checked against the 113-bit oracle on the lattice)"]
     chk.assumptions = ["PARTIAL: ulp accuracy of length(), handling of underflowing / subnormal squares, and absence of NaN/inf in the "
                        "normalize family are NOT proved; they are measured against a 113-bit reference with bounds fixed at the "
-                       "clean-tree maximum + 1 (structured sweep, not exhaustive)",
-                       "theorems are about exact arithmetic over an ordered field with sqrt (and over R with Real.sqrt)"]
-    chk.rule = ("theorems: every vector and all limit parameters tmin, tmax. residue: every binary exponent (smallest subnormal .. "
-                "max/2, so squares that overflow with a representable length are included) x mantissas {1, 1.5, 1+ulp, 2-ulp, random} x {single non-zero component with signed zeros, all equal, "
-                "mixed magnitudes with gaps 0..full range, signed zeros mixed} x Vec2/3/4 x float/double, plus vectors placed around "
-                "the 2*min threshold, around norm = min and around the dot = max overflow guard, plus all-zero sign patterns; "
-                "integer lattice at four scales")
+                       "clean-tree maximum + 1 (structured sweep; exhaustive only for the float single-component and all-equal families, thorough tier)",
+                       "theorems are about exact arithmetic over an ordered field with sqrt (and over R with Real.sqrt); the SHAPE theorems are syntactic "
+                       "(any function sqrt) and say nothing about rounding either: which branch the float code takes is measured by the branch probe"]
+    chk.rule = ("theorems: every vector and all limit parameters tmin, tmax (value: any sqrt with sqrt x * sqrt x = x >= 0; shape: any function). residue: every "
+                "binary exponent (smallest subnormal .. max/2, so squares that overflow with a representable length are included) x mantissas {1, 1.5, 1+ulp, "
+                "2-ulp, random} x {single non-zero component with signed zeros, all equal, mixed magnitudes with gaps 0..full range, signed zeros mixed} x "
+                "Vec2/3/4 x float/double, plus vectors placed around the 2*min threshold (factors down to 1 +- 2^-(p-4)), around norm = min and around the "
+                "dot = max overflow guard, plus constructed vectors whose T-valued dot is exactly 2*min / pred / succ / max, plus all-zero sign patterns; "
+                "classes from the reference; branch probe on every vector; integer lattice at four scales, bit-exact at scale 1; thorough: all 2^31 floats "
+                "in six families")
     bins = troute.build_extractors(chk, [dict(name="sym_leaf", source="sym/sym_leaf.cpp"), dict(name="sym_c08", source="sym/sym_c08.cpp")])
     okr, rbin, rlog = lib.cxx_build("c08_residue", ["corr/c08_residue.cpp"], libs=["-lquadmath"])
     chk.oblige("build:c08_residue", "build", okr, None if okr else rlog[-1500:])
@@ -132,31 +378,51 @@ def run(chk):
                  {"compiler_errors": [l for l in rlog.split("\n") if "error" in l][:12]}, False)
         rbin = None
     leaf_index = os.path.join(troute.GEN, "index_leaf.txt")
+    lindex = index = None
     if bins.get("sym_leaf"):
         lindex, _ = troute.regenerate(chk, bins["sym_leaf"], "leaf")
         troute.tv(chk, bins["sym_leaf"], "leaf", 2000 if chk.thorough else 400)
         troute.lean_tv(chk, bins["sym_leaf"], "leaf", lindex, n=6 if chk.thorough else 3)
+        tv_leaf_coverage(chk, bins["sym_leaf"], lindex)
         for d in lindex:
             chk.sample({"entry": d["name"], "paths": d.get("paths")})
     if bins.get("sym_c08") and bins.get("sym_leaf"):
         index, _ = troute.regenerate(chk, bins["sym_c08"], "c08", idx_deps=[leaf_index])
         troute.tv(chk, bins["sym_c08"], "c08", 400 if chk.thorough else 64, idx_deps=[leaf_index])
         troute.lean_tv(chk, bins["sym_c08"], "c08", index, n=6 if chk.thorough else 3, idx_deps=[leaf_index])
+        if lindex and index:
+            emitted_text_tv(chk, bins, lindex, index, leaf_index)
     search = make_search(chk, rbin)
     for mod in LEMMAS:
         chk.check_theorems(mod, required=REQUIRED_LEMMAS[mod], search=search)
     chk.check_theorems(PROPS, required=REQUIRED, search=search)
+    # SHAPE theorems: own key, found_input only when a separating float input was found
+    n0 = len(chk.failures)
+    chk.check_theorems(SHAPE, required=SHAPE_REQUIRED, search=make_shape_search(chk, rbin, bins))
+    for f in chk.failures[n0:]:
+        if f["key"].startswith("shape:"):
+            sep = f["replay"].get("separating_input")
+            f["found_input"] = bool(sep)
+            f["what"] = "SHAPE theorem %s no longer holds: the shape of the code changed (%s)" % (
+                f["replay"].get("shape_theorem"), "float input on which the real code departs from the pinned algorithm: " + sep if sep else
+                "no separating float input on the lattice — possibly a harmless rewrite, to be triaged")
     if rbin:
-        # exact-semantics agreement of the REAL code with the proved spec on the integer lattice (four scales)
+        # exact-semantics agreement of the REAL code with the proved spec on the integer lattice (four scales); bit-exact at scale 1
         rc, out = lattice(chk, rbin, None)
         m = re.search(r"RESIDUE mode=lattice seed=\d+ vectors=(\d+) evals=(\d+) failures=(\d+)", out)
-        okl = rc == 0 and m is not None and int(m.group(3)) == 0
+        mx = re.search(r"LATTICE-EXACT checks=(\d+) not_judged_oracles_disagree=(\d+)", out)
+        fails = [l for l in out.split("\n") if l.startswith("RESIDUE-FAIL")]
+        exact_fails = [l for l in fails if "lattice-not-correctly-rounded" in l]
+        okl = rc in (0, 1) and m is not None and not [l for l in fails if l not in exact_fails] and int(m.group(3)) == len(fails)
         chk.oblige("lattice: real length/length2/normalize* = norm / quotients on [-3,3]^N at four scales", "correspondence", okl)
+        okx = rc in (0, 1) and mx is not None and int(mx.group(1)) > 30000 and int(mx.group(2)) == 0 and not exact_fails
+        chk.oblige("lattice: at scale 1 (exact squares and sum) length() == RN(sqrt(dot)) and every normalize form == RN(v[i] / length()) BIT FOR BIT "
+                   "(%s checks, float and double; both oracles — 113-bit and hardware — agree on every case)" % (mx.group(1) if mx else "?"),
+                   "correspondence", okx, None if okx else exact_fails[:5])
         if m:
             chk.count(int(m.group(2)), int(m.group(2)))
-            chk.extra["lattice"] = {"vectors": int(m.group(1)), "evaluations": int(m.group(2))}
-        if not okl:
-            fails = [l for l in out.split("\n") if l.startswith("RESIDUE-FAIL")]
+            chk.extra["lattice"] = {"vectors": int(m.group(1)), "evaluations": int(m.group(2)), "bit_exact_checks_at_scale_1": int(mx.group(1)) if mx else None}
+        if fails:
             seen = set()
             for l in fails:
                 p = l.split()
@@ -165,9 +431,11 @@ def run(chk):
                     seen.add(key)
                     chk.fail("lattice:" + p[1], key, "real code disagrees with the exact norm / quotient on a small integer vector: " + l[:300],
                              {"line": l, "replay_cmd": ".build/bin/c08_residue %d lattice all" % chk.seed}, True)
-            if not fails:
-                chk.fail("lattice", "lattice:run", "lattice harness failed to run", {"output": out[-1500:]}, False)
+        elif not (okl and okx):
+            chk.fail("lattice", "lattice:run", "lattice harness failed to run", {"output": out[-1500:]}, False)
         residue(chk, rbin)
+        if chk.thorough:
+            exhaustive(chk, rbin)
     if chk.thorough:
-        for mod in LEMMAS + [PROPS]:
+        for mod in LEMMAS + [PROPS, SHAPE]:
             chk.leanchecker(mod)
